@@ -440,9 +440,18 @@ impl LocalesOrNamespaces {
     ) -> Result<()> {
         let mut key_path = KeyPath::new(namespace);
 
-        for locale in locales {
+        for locale in locales.iter_mut() {
             let top_locale = locale.name.clone();
             locale.merge_plurals(top_locale.clone(), &mut key_path, warnings)?;
+        }
+
+        // a lone `key_other` is left alone above, whether it is a plural can't be told inside one locale.
+        // It is one when the default locale has a plural at `key`: for a locale with the single category "other" (ja, zh, ..)
+        // that form alone is the complete plural.
+        if let Some((default_locale, others)) = locales.split_first_mut() {
+            for locale in others {
+                locale.adopt_lone_other_forms(default_locale);
+            }
         }
 
         Ok(())
@@ -556,6 +565,43 @@ impl Locale {
         };
 
         PluralForm::try_from_str(suffix).map(|form| (base_key, rule_type, form))
+    }
+
+    fn adopt_lone_other_forms(&mut self, default_locale: &Locale) {
+        for (key, default_value) in &default_locale.keys {
+            match default_value {
+                ParsedValue::Plurals(Plurals { rule_type, .. }) if !self.keys.contains_key(key) => {
+                    let form_name = match rule_type {
+                        PluralRuleType::Cardinal => format!("{}_other", key.name),
+                        PluralRuleType::Ordinal => format!("{}_ordinal_other", key.name),
+                    };
+                    let Some(form_key) = Key::new(&form_name) else {
+                        continue;
+                    };
+                    if !matches!(
+                        self.keys.get(&form_key),
+                        Some(value) if Self::is_possible_plural(&form_key, value).is_some()
+                    ) {
+                        continue;
+                    }
+                    if let Some(other) = self.keys.remove(&form_key) {
+                        let plural = Plurals {
+                            rule_type: *rule_type,
+                            forms: BTreeMap::new(),
+                            count_key: Key::count(),
+                            other: Box::new(other),
+                        };
+                        self.keys.insert(key.clone(), ParsedValue::Plurals(plural));
+                    }
+                }
+                ParsedValue::Subkeys(Some(default_subkeys)) => {
+                    if let Some(ParsedValue::Subkeys(Some(subkeys))) = self.keys.get_mut(key) {
+                        subkeys.adopt_lone_other_forms(default_subkeys);
+                    }
+                }
+                _ => {}
+            }
+        }
     }
 
     pub fn merge_plurals(
